@@ -257,7 +257,18 @@ func ReadPatchString(s string) (Diff, error) {
 			diff = append(diff, e)
 		} else {
 			i := len(diff) - 1
-			if diff[i].Path.JsonNode().Equals(e.Path.JsonNode()) {
+			// An element with context of its own stands alone
+			// so that its context is checked when patching.
+			hasContext := false
+			for _, c := range append(append([]JsonNode{}, e.Before...), e.After...) {
+				if !isVoid(c) {
+					hasContext = true
+				}
+			}
+			// A hunk removes before it adds, so removals
+			// cannot join a hunk which already adds.
+			inOrder := len(e.Remove) == 0 || len(diff[i].Add) == 0
+			if !hasContext && inOrder && diff[i].Path.JsonNode().Equals(e.Path.JsonNode()) {
 				diff[i].Remove = append(diff[i].Remove, e.Remove...)
 				if isAppendPath(e.Path) {
 					// Appending to the end of the array
